@@ -92,6 +92,7 @@ type Enc struct {
 	loopFramed map[*ssa.BasicBlock][]loopFrame
 	loopAlloc  map[*ssa.BasicBlock]*smt.Term
 	phiEntry   map[*ssa.Phi]*smt.Term
+	loopHead   map[*ssa.BasicBlock]map[string]*smt.Term
 	callSeq int
 }
 
